@@ -1,22 +1,140 @@
-"""Property table: which functions under contract (and which lemmas) decide each property."""
+"""Property table: which functions under contract (and which of their obligations) decide each property.
+
+`functions`: qualified names verified for the property.  `select`: optional list of (function-substring, regex) pairs;
+an obligation of a matching function counts for the property only if "<kind>::<clause>" matches the regex (used to
+attribute e.g. frame obligations to C09 and exceptional postconditions to C20 without reporting them twice).
+"""
 M = 'traffic_weaver.'
 SAU = M + 'sorted_array_utils.'
+PR = M + 'process.'
+WV = M + 'weaver.Weaver.'
+IA = M + 'interval.IntervalArray.'
+MT = M + 'match.'
 
 A_REAL = ("A-real: float/float64 arithmetic is treated as exact real arithmetic (rounding, overflow, NaN/inf, -0.0 not "
           "modelled); every proved equality is an equality over the reals")
+A_NOALIAS = "A-noalias: two distinct array parameters of one call do not share a buffer"
+A_LEN = "lengths and indices are mathematical integers (no int64 overflow)"
+
+SCANS = [SAU + 'find_closest_lower_equal_element_indices_to_values',
+         SAU + 'find_closest_higher_equal_element_indices_to_values',
+         SAU + 'find_closest_lower_or_higher_element_indices_to_values',
+         SAU + 'find_closest_element_indices_to_values']
+
+WEAVER_MUTATORS = [WV + m for m in (
+    '__init__', 'restore_original', 'append_one_sample', 'interpolate', 'repeat', 'trend', 'shift_x', 'shift_y',
+    'scale_x', 'scale_y', 'normalize_x', 'normalize_y', 'truncate_by_index', 'truncate_by_value')]
+WEAVER_READERS = [WV + m for m in ('from_2d_array', 'get', 'get_original', 'get_reference', '__len__', 'slice_by_index',
+                                   'slice_by_value')]
+
+EXC = r'^(raises-if|raises-only-if|frame-on-raise|no-raise)::'
+NOT_EXC_NOT_FRAME = r'^(?!raises-if|raises-only-if|frame-on-raise|frame::|class-inv)'
 
 PROPS = {
     'C10': dict(
-        functions=[SAU + 'find_closest_lower_equal_element_indices_to_values',
-                   SAU + 'find_closest_higher_equal_element_indices_to_values',
-                   SAU + 'find_closest_lower_or_higher_element_indices_to_values',
-                   SAU + 'find_closest_element_indices_to_values'],
+        functions=SCANS,
         level='proof',
         explanation=("Definitional postconditions (largest element <= query / smallest >= / nearest with ties to the lower index, "
                      "fill values outside the range) proved for all lengths and all real values by three inductive invariants per scan; "
                      "the dispatcher is proved against the three callee contracts."),
-        assumptions=[A_REAL, "ties of the 'closest' variant created by floating-point rounding of the two subtractions are outside the real model",
+        assumptions=[A_REAL, A_LEN, "ties of the 'closest' variant created by floating-point rounding of the two subtractions are outside the real model",
                      "precondition: x strictly increasing and non-empty, lookup non-decreasing and non-empty (from the property's quantifier)"],
-        monitor_quick=[],
+    ),
+    'C11': dict(
+        functions=[PR + 'truncate', WV + 'truncate_by_value', WV + 'truncate_by_index', WV + 'slice_by_value', WV + 'slice_by_index'],
+        select=[('', r'^(?!frame-on-raise)')],
+        level='proof',
+        explanation=("truncate: smallest contiguous run covering [left, right] (via the C10 contracts, not the scan bodies), ratio bounds, "
+                     "x/y cut identically; Weaver: reference cut with the same bounds; slice_by_value = exactly the samples inside "
+                     "[start, stop]; index variants = Python slice semantics (independent spec function py_count/py_stop)."),
+        assumptions=[A_REAL, A_LEN, "truncate_by_index precondition: working and reference series have the same length and the cut is non-empty"],
+    ),
+    'C12': dict(
+        functions=[PR + 'repeat', WV + 'repeat'],
+        level='proof',
+        explanation=("repeat: r*len samples, values tiled, copy c shifted by c*(span + last step) - proved with a loop invariant over "
+                     "the copies, for all lengths and all r >= 1; closed div/mod form; r = 1 is the identity and the composition law "
+                     "follow from the closed form. Weaver.repeat: both series repeated, sync preserved."),
+        assumptions=[A_REAL, A_LEN],
+    ),
+    'C13': dict(
+        functions=[PR + '_piecewise_constant_interpolate', PR + 'interpolate', WV + 'interpolate'],
+        select=[('', r'^(?!frame-on-raise)')],
+        level='proof',
+        explanation=("Proved: method dispatch (arguments in the right positions, unknown name -> ValueError), the repository's own "
+                     "'constant' interpolation completely (last sample at or before the point, first value to the left, exact at samples), "
+                     "Weaver grid (n equally spaced points over the same range; explicit grid must share both end points). "
+                     "ASSUMED (library contracts): numpy.interp is the piecewise-linear interpolant, CubicSpline and splrep(s=0)+BSpline "
+                     "pass through every knot; 'reproduces affine data' for cubic/spline is not decided."),
+        assumptions=[A_REAL, "numpy.interp / scipy CubicSpline / splrep+BSpline numerical behaviour (assumed contracts in pyvc/libcalls.py)",
+                     "unknown **kwargs forwarded to the library calls are treated as absent"],
+    ),
+    'C14': dict(
+        functions=[PR + 'trend', PR + 'linear_trend', PR + 'normalize', WV + 'trend', WV + 'shift_x', WV + 'shift_y', WV + 'scale_x',
+                   WV + 'scale_y', WV + 'normalize_x', WV + 'normalize_y'],
+        select=[('process.trend', r'^(?!frame::y)')],
+        level='proof',
+        explanation=("trend: y_i + f(x_i) resp. f(x_i/(x_last-x_first)) for an uninterpreted pure f, x untouched (loop invariant); "
+                     "normalize: min->min_val, max->max_val, order and ratios of differences preserved; shift/scale pointwise on working "
+                     "and reference series."),
+        assumptions=[A_REAL, "A-pure: the trend callable is deterministic and side-effect free"],
+    ),
+    'C15': dict(
+        functions=[PR + 'noise_gauss'],
+        level='proof',
+        explanation=("Proved: numpy.random.normal is called exactly once with loc = 0, size = len(a) and scale = "
+                     "sqrt(mean(a^2)/SNR) (SNR = 10^(snr/10) or snr; element-wise for array snr; std when snr is None) as a symbolic "
+                     "identity; result = a + that draw. NOT decidable by contracts: Gaussianity, zero mean of the draw, seed "
+                     "reproducibility, empirical SNR (properties of NumPy's generator)."),
+        assumptions=[A_REAL, "numpy.random.normal returns an array of the requested size (its distribution is NumPy's)",
+                     "power axioms P1-P8 on POW (real powers of non-negative bases)", "linear-scale snr > 0"],
+    ),
+    'C16': dict(
+        functions=[PR + 'spline_smooth'],
+        level='proof',
+        explanation=("Proved: spline_smooth forwards x, y and s unchanged to splrep (s omitted -> len(y)*std(y)^2; s = 0 is not replaced) "
+                     "and builds the BSpline from exactly that result. ASSUMED: FITPACK's smoothing condition and interpolation at s = 0."),
+        assumptions=[A_REAL, "scipy splrep/BSpline: sum((y-g(x))^2) <= s(1+tol), interpolation for s = 0 (assumed library contract)"],
+    ),
+    'C17': dict(
+        functions=[SAU + f for f in ('append_one_sample', 'oversample_linspace', 'oversample_piecewise_constant', 'extend_linspace',
+                                     'extend_constant', 'rectangle_integral', 'trapezoid_integral', 'integral', 'sum_over_indices')]
+        + [IA + m for m in ('__init__', '__getitem__', '__setitem__', 'nr_of_full_intervals', '__len__', 'to_2d_array')]
+        + [PR + 'average'],
+        level='proof',
+        explanation=("Index-form postconditions of every helper (n-fold oversampling keeps originals at every n-th position, linear / "
+                     "left-value fill; extension adds exactly n per side; append continues by the last step), the interval view "
+                     "[i, j] -> i*n+j for loads and stores, row-major layout with NaN exactly on the padding, block average = mean of "
+                     "the non-padding entries + first abscissa of each row; all for symbolic lengths and n."),
+        assumptions=[A_REAL, A_LEN, "NumPy array-algebra contracts (linspace, flatten, repeat, insert, pad, reshape, nanmean, ...)"],
+    ),
+    'C08': dict(
+        functions=WEAVER_MUTATORS,
+        select=[('', r'(sync|ensures::(?!restore_like_new))')],
+        level='proof',
+        explanation=("Invariant rule over histories: `in_sync` (working == reference) is established by the constructor and preserved by "
+                     "each of the ten domain operations, whose two-state postconditions state that both series are transformed by the "
+                     "same map; every reshaping operation leaves the reference unchanged. No bound on the history length."),
+        assumptions=[A_REAL],
+    ),
+    'C09': dict(
+        functions=WEAVER_MUTATORS + WEAVER_READERS + [PR + 'trend'],
+        select=[('weaver.Weaver', r'^(class-inv|frame::|ensures::restore|ensures::init_post|no-raise)'), ('process.trend', r'^frame::')],
+        level='proof',
+        explanation=("Class invariant (six ndarray fields, equal lengths >= 1, strictly increasing abscissae) established by the "
+                     "constructor and preserved by every method under its precondition; frame rule: no buffer that existed before a "
+                     "call (caller arrays, original_*) is written in place; restore_original re-establishes the state of a new object."),
+        assumptions=[A_REAL, A_NOALIAS],
+    ),
+    'C20': dict(
+        functions=[WV + m for m in ('__init__', 'from_2d_array', 'slice_by_index', 'slice_by_value', 'interpolate', 'truncate_by_index',
+                                    'truncate_by_value')] + [PR + 'truncate', PR + 'interpolate', SAU + 'integral',
+                                                             SAU + 'find_closest_element_indices_to_values'],
+        select=[('', EXC)],
+        level='proof',
+        explanation=("Exceptional postconditions: each entry point raises ValueError exactly under the stated condition (no other "
+                     "exception class can escape), and on the exceptional edge every field of the Weaver is bound to the same, "
+                     "unmodified buffer."),
+        assumptions=[A_REAL],
     ),
 }
